@@ -60,7 +60,7 @@ class World:
         if kind in ('B', 'S') and parent is None:
             block = None
         line = 'mk %s %s %s %s %s' % (slot, kind, pslot, S(name), S(typ))
-        shape = pos = None
+        shape = pos = dt = None
         if kind == 'A':
             dt = r.choice(['Double', 'Int32', 'String', 'UInt8', 'Float'])
             shape = extra if extra is not None else [r.choice([1, 2, 3, 5]) for _ in range(r.choice([1, 1, 2]))]
@@ -86,6 +86,7 @@ class World:
         dup = (not allow_dup) or name not in self.taken(kind, pslot)
         e = Ent(slot, kind, pslot, name, block if kind != 'B' else slot)
         e.shape = shape          # arrays: the extent they were created with
+        e.dtype = dt             # arrays: the element type
         e.pos = pos              # multi-tags: the positions array
         if kind == 'B':
             e.block = slot
